@@ -436,7 +436,10 @@ func c12Traced(served []c12KeyResp, pk c12PK, v c12PR) (from []c12KeyResp) {
 		if r.malformed || r.name != string(pk.ServerName) {
 			continue
 		}
-		if k, ok := r.verify[string(pk.KeyID)]; ok && bytes.Equal(k, v.Key) && uint64(v.ValidUntilTS) == r.vu && v.ExpiredTS == 0 {
+		// (a key ID that the same response also lists among its old keys is retired by that response:
+		// only the expired form of it comes "from" this response)
+		_, retired := r.old[string(pk.KeyID)]
+		if k, ok := r.verify[string(pk.KeyID)]; ok && !retired && bytes.Equal(k, v.Key) && uint64(v.ValidUntilTS) == r.vu && v.ExpiredTS == 0 {
 			from = append(from, r)
 			continue
 		}
@@ -869,7 +872,13 @@ func c12GenResp(t *rapid.T, asked string, base int, relTime bool, notary string,
 			tags = append(tags, "old-key-wrong-length")
 		}
 		exp := rapid.SampledFrom([]c12TS{c12Abs(1600000000000), c12Abs(1000), c12Abs(1)}).Draw(t, label+"_oldExp")
-		r.Old = append(r.Old, c12OK{KeyID: []string{"ed25519:old1", "ed25519:old2"}[i], Key: key, Expired: exp})
+		oldID := []string{"ed25519:old1", "ed25519:old2"}[i]
+		if nk > 0 && i == 0 && rapid.IntRange(0, 5).Draw(t, label+"_oldIsCurrent") == 0 {
+			// the response retires a key ID that it also lists as current (same key material)
+			oldID, key = "ed25519:a", c12Pub(base)
+			tags = append(tags, "old-key-id-also-current")
+		}
+		r.Old = append(r.Old, c12OK{KeyID: oldID, Key: key, Expired: exp})
 	}
 	if notary != "" {
 		nk := rapid.SampledFrom([]string{"good", "good", "good", "good", "good", "good", "missing", "corrupt", "unknown-id", "other-key"}).Draw(t, label+"_notarySig")
